@@ -715,7 +715,8 @@ class Sfcf:
         layout = rng.choice(["o", "c", "a"])
         T = rng.randint(1, 4)
         ens = rng.choice(["data_", "test", "A654", "N300k_", "sf2"])
-        sepstyle = rng.choice(["_r", "_r", "r"])
+        sepstyle = rng.choice(["_r", "_r", "r", "x"])
+        cfgsep = rng.choice(["n", "n", "c"])
         names = rng.sample(sorted(self.NAMES), rng.randint(1, 3))
         blocks = []
         for nm in names:
@@ -733,8 +734,10 @@ class Sfcf:
                 blocks.append(b)
         if layout == "c":
             rng.shuffle(blocks)     # compact files interleave correlator names
+        if sepstyle == "x":
+            ens = ens.replace("x", "y")
         p = {"kind": "sfcf", "layout": layout, "T": T, "ens": ens, "blocks": blocks, "data_seed": rng.getrandbits(32),
-             "version": rng.choice(["1.0", "2.0"])}
+             "version": rng.choice(["1.0", "2.0"]), "rep_sep": "x" if sepstyle == "x" else "r", "cfgsep": cfgsep}
         R = rng.choice([1, 1, 2, 2, 3])
         ks = sorted(rng.sample(REPNUMS, R))
         reps = []
@@ -768,6 +771,11 @@ class Sfcf:
         b = p["blocks"][bi]
         c["block"] = bi
         c["im"] = rng.random() < 0.3
+        if p["layout"] != "a" and rng.random() < 0.3:
+            # read_sfcf_multi: all blocks that differ from the chosen one only in the wave function id
+            sib = [k for k, bb in enumerate(p["blocks"]) if all(bb.get(f) == b.get(f) for f in ("name", "quarks", "off", "type")) and (b["type"] == "bi" or bb.get("wf2") == b.get("wf2"))]
+            c["multi"] = sorted(sib)
+            c["keyed_out"] = rng.random() < 0.5
         c["quarks_explicit"] = True
         c["sel"] = "none"
         r = rng.random()
@@ -788,7 +796,7 @@ class Sfcf:
                 if p["layout"] == "o":
                     fl.append(["cfg%d" % n for n in sub])
                 else:
-                    fl.append(["%s_n%d" % (rp["dir"], n) for n in sub])
+                    fl.append(["%s_%s%d" % (rp["dir"], p.get("cfgsep", "n"), n) for n in sub])
                 rng.shuffle(fl[-1])
             c["files"] = fl
             c["sel"] = "files"
@@ -823,7 +831,7 @@ class Sfcf:
         if "names" in call:
             return call["names"][pos]
         d = rp["dir"]
-        idx = d.index("r")
+        idx = d.index(p.get("rep_sep", "r"))
         if "ens_name" in call:
             return call["ens_name"] + "|" + d[idx:]
         return d[:idx] + "|" + d[idx:]
@@ -838,6 +846,15 @@ class Sfcf:
 
     def expect(self, p, models, nrecs, call, cfgsets=None):
         """full-data expectation (optionally restricted to cfgsets[rep] lists)."""
+        if "multi" in call:
+            out = {}
+            for bi in call["multi"]:
+                sub = self.expect(p, models, nrecs, dict({k: v for k, v in call.items() if k != "multi"}, block=bi), cfgsets)
+                if sub is None:
+                    return None
+                for k, v in sub.items():
+                    out["b%d.%s" % (bi, k)] = v
+            return out
         order = sorted_reps(p["reps"])
         b = p["blocks"][call["block"]]
         T = 1 if b["type"] == "bb" else p["T"]
@@ -873,7 +890,26 @@ class Sfcf:
                 kw[k] = [list(x) if isinstance(x, list) else x for x in call[k]] if isinstance(call[k], list) else call[k]
         if call["im"]:
             kw["im"] = True
+        if p.get("rep_sep", "r") != "r":
+            kw["rep_string"] = p["rep_sep"]
+        if p.get("cfgsep", "n") != "n":
+            kw["cfg_separator"] = p["cfgsep"]
         ver = p["version"] + {"o": "", "c": "c", "a": "a"}[p["layout"]]
+        if "multi" in call:
+            bl = [p["blocks"][k] for k in call["multi"]]
+            wfs = sorted(set(x["wf"] for x in bl))
+            res = pe.input.sfcf.read_sfcf_multi(d, p["ens"], [b["name"]], quarks_list=[b["quarks"]], corr_type_list=[b["type"]], noffset_list=[b["off"]],
+                                                wf_list=wfs, wf2_list=[b.get("wf2", 0)], version=ver, silent=True, keyed_out=call["keyed_out"], **kw)
+            out = {}
+            for k in call["multi"]:
+                x = p["blocks"][k]
+                if call["keyed_out"]:
+                    r = res["/".join([x["name"], x["quarks"], str(x["off"]), str(x["wf"]), str(x.get("wf2", 0) if x["type"] != "bi" else 0)])]
+                else:
+                    r = res[x["name"]][x["quarks"]][str(x["off"])][str(x["wf"])][str(x.get("wf2", 0) if x["type"] != "bi" else 0)]
+                for t, o in enumerate(r):
+                    out["b%d.t%d" % (k, t)] = o
+            return out
         res = pe.input.sfcf.read_sfcf(d, p["ens"], b["name"], quarks=b["quarks"], corr_type=b["type"], noffset=b["off"], wf=b["wf"],
                                       wf2=b.get("wf2", 0), version=ver, silent=True, **kw)
         return {"t%d" % t: o for t, o in enumerate(res)}
